@@ -493,6 +493,27 @@ func TestC08(t *testing.T) {
 	V.Assume("egress hygiene: when the product itself computes a non-UDP next hop outside 127/8 for an input, the harness does not let that input reach the relay step (counted as neutralised); UDP sends cannot block")
 	V.Require("bin: process alive and RSS bounded after hostile batch", "decoded with hostile field", "rejected by the decoder", "tcp-like arrival", "udp-like arrival", "response", "lab: sentinel relayed after hostile batch", "lab: back-to-back ordinary requests all relayed after hostile batch", "lab: garbage TCP connection closed")
 
+	// saved hostile inputs, each as UDP-like and TCP-like arrival, with and without received-support
+	V.Regress(t, func(c regressCase) string {
+		if c.S("kind") != "bytes" {
+			return "skip: kind " + c.S("kind")
+		}
+		data := []byte(c.S("data"))
+		if n := c.I("repeat_marker_to"); n > 0 {
+			data = bytes.ReplaceAll(data, []byte("{LONG}"), bytes.Repeat([]byte("A"), n))
+		}
+		for _, tcp := range []bool{false, true} {
+			for _, stamp := range []bool{false, true} {
+				p, _ := c08NewProxy()
+				var st c08Stats
+				if f := c08Pipeline(p, data, tcp, stamp, "127.0.0.81", 40000, &st); f != "" {
+					return fmt.Sprintf("(tcp-like=%v, received-support=%v) %s", tcp, stamp, f)
+				}
+			}
+		}
+		return ""
+	})
+
 	// every number the proxy decodes, at every integer width boundary (complete enumeration)
 	t.Run("numeric-boundaries", func(t *testing.T) {
 		if V.replay && !strings.HasPrefix(V.only, "numeric:") {
